@@ -57,8 +57,21 @@ package mvt
 //@   requires gd.iter != nil && gd.used >= 0
 //@   modifies *gd, *gd.iter
 //@   ensures gd.count == old(gd.count) && gd.iter == old(gd.iter) && gd.used >= old(gd.used)
+//@   ensures result1 == nil ==> len(result0) >= 1 && fresh(result0)
 //@   opt alloc=gd.count+1
 //@   loop 1: invariant gd.iter == old(gd.iter) && gd.count == old(gd.count) && gd.used >= old(gd.used)
+
+// rings are regrouped into polygons by winding: the first ring opens the first polygon, after that a
+// counter-clockwise ring (and only such a ring) opens a new polygon, every other ring joins the current
+// polygon as a hole — so every polygon after the first starts with a counter-clockwise ring
+//@ func (*geomDecoder).decodePolygon(gd)
+//@   ovf assume
+//@   requires gd.iter != nil && gd.used >= 0
+//@   loop 1: invariant gd.iter == old(gd.iter) && gd.iter != nil && gd.used >= 0
+//@   loop 1: invariant (len(mp) == 0 || len(p) >= 1) && (mp == nil || fresh(mp)) && (p == nil || fresh(p))
+//@   loop 1: invariant len(mp) >= 1 ==> orb.Ring.Orientation(p[0]) == orb.CCW
+//@   loop 1: invariant forall k :: 1 <= k && k < len(mp) ==> len(mp[k]) >= 1 && orb.Ring.Orientation(mp[k][0]) == orb.CCW
+//@   ensures result1 == nil && istype(result0, orb.MultiPolygon) ==> (forall k :: 1 <= k && k < len(as(result0, orb.MultiPolygon)) ==> len(as(result0, orb.MultiPolygon)[k]) >= 1 && orb.Ring.Orientation(as(result0, orb.MultiPolygon)[k][0]) == orb.CCW)
 
 // ---------------------------------------------------------------- features added per geometry (C03)
 // ASSUMED (listed): encoding the properties writes only the key/value encoder's own tables. The body
